@@ -44,7 +44,8 @@ static inline void myth_verif_rd(volatile void * p) { if (p == (volatile void *)
 #undef __sync_bool_compare_and_swap
 
 myth_barrier_t B;
-struct myth_running_env ENV;
+struct myth_running_env ENVS2[2];
+#define ENV (ENVS2[0])       /* the worker the operation starts on; ENVS2[1]: the worker a thread may find itself on after a yield */
 #ifndef WM_N
 #define WM_N 4
 #endif
@@ -117,16 +118,23 @@ myth_sleep_queue_item_t verif_stack_pop(myth_sleep_stack_t * s) {
   return (myth_sleep_queue_item_t)&TH[g_pop++];
 }
 void verif_push(myth_thread_queue_t q, myth_thread_t th) {
-  __CPROVER_assert(q == &ENV.runnable_q, "wake_many: pushes to the caller's run queue");
+  __CPROVER_assert(q == &ENVS2[g_worker_rank].runnable_q, "wake_many: pushes to the run queue of the worker the caller is running on NOW (a run queue is pushed by its owner only)");
   __CPROVER_assert(g_pushed < WM_N && th == &TH[g_pushed], "wake_many: publishes exactly the collected threads, each once");
-  __CPROVER_assert(th->env == &ENV, "wake_many: woken thread bound to the waking worker before publication");
+  __CPROVER_assert(th->env == &ENVS2[g_worker_rank], "wake_many: woken thread bound to the waking worker before publication");
   g_pushed++;
 }
+/* should the collector yield while it waits for a late sleeper: it may be resumed on another worker */
+int verif_yield_wm(void) {
+  if (nondet_bool()) { g_envs_sz = 2; ENVS2[1].rank = 1; g_worker_rank = 1; }
+  return 0;
+}
+int (*keep_yield_wm)(void) = myth_yield_body;
+int (*keep_yield_wm2)(void) = verif_yield_wm;
 void h_wake_many_stack(void) {
   long n = nondet_long();
   __CPROVER_assume(0 <= n && n <= WM_N);
   g_pop = g_empty_polls = g_pushed = 0;
-  g_envs = &ENV; g_envs_sz = 1; g_worker_rank = 0; ENV.rank = 0;
+  g_envs = ENVS2; g_envs_sz = 1; g_worker_rank = 0; ENV.rank = 0;
   int r = myth_wake_many_from_stack(B.sleep_s, 0, 0, n);
   __CPROVER_assert(r == n && g_pop == n && g_pushed == n, "wake_many: collects exactly n sleepers (spinning for late ones) and makes exactly those n runnable");
   VERIF_CANARY();
@@ -149,7 +157,7 @@ void suspend_resume_contract(myth_context_t from, myth_context_t to)
   __CPROVER_requires(ENV.this_thread == (g_popped_next ? &TH[1] : 0) && (!g_popped_next || TH[1].env == &ENV))
   __CPROVER_assigns(ENV.this_thread) __CPROVER_ensures(1);
 void h_block_on_stack(void) {
-  g_envs = &ENV; g_envs_sz = 1; g_worker_rank = 0; ENV.rank = 0; ENV.this_thread = &TH[0]; TH[0].env = &ENV;
+  g_envs = ENVS2; g_envs_sz = 1; g_worker_rank = 0; ENV.rank = 0; ENV.this_thread = &TH[0]; TH[0].env = &ENV;
   g_enq = g_popped_next = 0; g_ctx_saved = 0; g_switch_count = 0; g_in_callback = 0; g_jumped = 0;
   myth_block_on_stack(B.sleep_s, 0);
   __CPROVER_assert(g_switch_count == 1 && !g_jumped && g_enq == 1, "block_on_stack: one switch with context saved, pushed once");
